@@ -445,7 +445,10 @@ class Rewriter:
         if z3.is_real(t) or z3.is_int(t):
             if z3.is_rational_value(t) or z3.is_int_value(t):
                 return t
-            return self._rw_arith(t)
+            try:
+                return self._rw_arith(t)
+            except NotPolynomial:
+                return t
         return t
 
     def _rw_bool(self, t):
@@ -456,7 +459,10 @@ class Rewriter:
         if k in _ARITH_CMP and len(ch) == 2 and (z3.is_real(ch[0]) or z3.is_int(ch[0])) and z3.is_real(ch[0]) == z3.is_real(ch[1]):
             if z3.is_int(ch[0]):
                 return t
-            d = self._rw_arith(ch[0] - ch[1])
+            try:
+                d = self._rw_arith(ch[0] - ch[1])
+            except NotPolynomial:
+                return t
             if z3.is_rational_value(d):
                 return z3.BoolVal(bool(_CMP_CONST[k](sc.zval_to_fraction(d))))
             return _ARITH_CMP[k](d)
@@ -471,12 +477,32 @@ class Rewriter:
     def _rw_arith(self, t):
         """normal form of a Real term; certified"""
         ctx = self.ctx
-        full = expand_defs(ctx, t)
+        defs = ctx.memo.get("defs")
+        if defs and any(v in defs for v in sc.term_vars(t)):
+            # atom level first (definitional atoms kept as variables): cheap, and enough when both
+            # sides of a comparison are built from the same intermediate products
+            out0 = self._cached(t, t)
+            if z3.is_rational_value(out0):
+                return out0
+            full = expand_defs(ctx, t)
+            try:
+                return self._cached(t, full)
+            except NotPolynomial:
+                return out0
+        return self._cached(t, t)
+
+    def _cached(self, t, full):
         gkey = (full.get_id(), tuple(sorted(w for w in self.hyps.lead if w in sc.term_vars(full))))
         hit = _GLOBAL.get(gkey)
         if hit is not None and hit[0].eq(full):
+            if hit[1] is None:
+                raise NotPolynomial("cached: out of reach")
             return hit[1]
-        out = self._rw_arith_uncached(t, full)
+        try:
+            out = self._rw_arith_uncached(t, full)
+        except NotPolynomial:
+            _GLOBAL[gkey] = (full, None)
+            raise
         if len(_GLOBAL) > 200000:
             _GLOBAL.clear()
         _GLOBAL[gkey] = (full, out)
@@ -486,14 +512,11 @@ class Rewriter:
         ctx = self.ctx
         conv = Converter()
         conv.rw_child = self.rw
-        try:
-            for w, (xyz, q) in self.hyps.lead.items():
-                for qv in q:
-                    conv.atoms.setdefault(qv.decl().name(), qv)
-            p = conv.to_poly(full)
-            red, cof = self.hyps.reduce(p, conv)
-        except NotPolynomial:
-            return t
+        for w, (xyz, q) in self.hyps.lead.items():
+            for qv in q:
+                conv.atoms.setdefault(qv.decl().name(), qv)
+        p = conv.to_poly(full)
+        red, cof = self.hyps.reduce(p, conv)
         out = conv.to_z3(red)
         # certificate: skeleton(full) == out + sum cof * generator, unconditional
         cert = out
